@@ -1,6 +1,7 @@
 package main
 
 import (
+	"strconv"
 	"flag"
 	"fmt"
 	"os"
@@ -90,7 +91,16 @@ func cmdFn(repo string, names []string, verbose bool, timeout int) int {
 			continue
 		}
 		e := newExec(ld, specs)
+		if k, _ := strconv.Atoi(os.Getenv("GOVC_BOUNDED")); k > 0 {
+			e.bounded = k
+		}
 		e.verifyFunction(fn, sp)
+		if e.bounded > 0 {
+			fmt.Printf("  bounded mode K=%d: %d obligations, %d paths pruned at the bound\n", e.bounded, len(e.obls), e.boundHits)
+		}
+		if os.Getenv("GOVC_NOSOLVE") != "" {
+			continue
+		}
 		dischargeAll(e.obls, timeout)
 		for _, er := range e.errs {
 			fmt.Printf("  ERROR %s\n", er)
